@@ -2,7 +2,10 @@ package main
 
 // Lock model, access tracking (C12) and caller-owned memory snapshots (C17).
 
-import "fmt"
+import (
+	"fmt"
+	"go/types"
+)
 
 type lockState struct {
 	writer  bool
@@ -21,6 +24,11 @@ type trackState struct {
 	mapMark    int
 	events     []lockEvent
 	violations []string
+	// object mode: only locations reachable from the receiver are guarded
+	objMode  bool
+	cells    map[*Cell]string
+	maps     map[*MapObj]string
+	readOnly map[*Cell]bool // must never be written (e.g. Full)
 }
 
 type ownRec struct {
@@ -89,24 +97,51 @@ func (in *Interp) lockOp(p Ptr, op string) {
 }
 
 func (in *Interp) noteRead(c *Cell) {
+	if in.track != nil && in.track.objMode {
+		if name, ok := in.track.cells[c]; ok {
+			in.track.events = append(in.track.events, lockEvent{Kind: "R", Loc: name, Held: in.held()})
+		}
+		return
+	}
 	if in.track != nil && c.id <= in.track.cellMark {
 		in.track.events = append(in.track.events, lockEvent{Kind: "R", Loc: fmt.Sprintf("c%d", c.id), Held: in.held()})
 	}
 }
 
 func (in *Interp) noteWrite(c *Cell) {
+	if in.track != nil && in.track.objMode {
+		if in.track.readOnly[c] {
+			in.track.violations = append(in.track.violations, "write to a field that is read without the lock (Full) at "+in.where())
+		}
+		if name, ok := in.track.cells[c]; ok {
+			in.track.events = append(in.track.events, lockEvent{Kind: "W", Loc: name, Held: in.held()})
+		}
+		return
+	}
 	if in.track != nil && c.id <= in.track.cellMark {
 		in.track.events = append(in.track.events, lockEvent{Kind: "W", Loc: fmt.Sprintf("c%d", c.id), Held: in.held()})
 	}
 }
 
 func (in *Interp) noteMapRead(m *MapObj) {
+	if in.track != nil && in.track.objMode {
+		if name, ok := in.track.maps[m]; ok {
+			in.track.events = append(in.track.events, lockEvent{Kind: "R", Loc: name, Held: in.held()})
+		}
+		return
+	}
 	if in.track != nil && m != nil && m.id <= in.track.mapMark {
 		in.track.events = append(in.track.events, lockEvent{Kind: "R", Loc: fmt.Sprintf("m%d", m.id), Held: in.held()})
 	}
 }
 
 func (in *Interp) noteMapWrite(m *MapObj) {
+	if in.track != nil && in.track.objMode {
+		if name, ok := in.track.maps[m]; ok {
+			in.track.events = append(in.track.events, lockEvent{Kind: "W", Loc: name, Held: in.held()})
+		}
+		return
+	}
 	if in.track != nil && m != nil && m.id <= in.track.mapMark {
 		in.track.events = append(in.track.events, lockEvent{Kind: "W", Loc: fmt.Sprintf("m%d", m.id), Held: in.held()})
 	}
@@ -161,4 +196,75 @@ func (in *Interp) checkOwned(id string) {
 			in.assert(eq, fmt.Sprintf("%s:%s[%d]", id, r.tag, i))
 		}
 	}
+}
+
+// trackStartObj starts tracking of the locations reachable from the receiver (a pointer to a struct):
+// its fields, everything behind interface/pointer fields, and map objects.  Fields named rwLock
+// (the mutex, trusted) are skipped; fields named Full are registered as read-only.
+func (in *Interp) trackStartObj(name string, recv Value) {
+	t := &trackState{name: name, objMode: true, cells: map[*Cell]string{}, maps: map[*MapObj]string{}, readOnly: map[*Cell]bool{}}
+	if iv, ok := recv.(Iface); ok {
+		recv = iv.v
+	}
+	p, ok := recv.(Ptr)
+	if !ok || p.c == nil {
+		in.end("error", "verifTrackStartObj: receiver is not a pointer")
+	}
+	var walkCell func(c *Cell, path string, depth int)
+	var walkVal func(v Value, path string, depth int)
+	walkVal = func(v Value, path string, depth int) {
+		if depth > 6 {
+			return
+		}
+		switch x := v.(type) {
+		case Ptr:
+			if x.c != nil {
+				walkCell(x.c, path, depth+1)
+			}
+		case Iface:
+			if x.t != nil {
+				walkVal(x.v, path, depth+1)
+			}
+		case *MapObj:
+			if x != nil {
+				t.maps[x] = path
+			}
+		case Slice:
+			if x.arr != nil {
+				walkCell(x.arr, path+"[]", depth+1)
+			}
+		case *Struct:
+			for i, f := range x.f {
+				walkVal(f, fmt.Sprintf("%s.%d", path, i), depth+1)
+			}
+		}
+	}
+	walkCell = func(c *Cell, path string, depth int) {
+		if _, seen := t.cells[c]; seen || depth > 8 {
+			return
+		}
+		if st, ok := c.typ.Underlying().(*types.Struct); ok && c.kids != nil {
+			for i, k := range c.kids {
+				fn := st.Field(i).Name()
+				if fn == "rwLock" {
+					continue
+				}
+				if fn == "Full" {
+					t.readOnly[k] = true
+					continue
+				}
+				walkCell(k, path+"."+fn, depth+1)
+			}
+			return
+		}
+		t.cells[c] = path
+		for i, k := range c.kids {
+			walkCell(k, fmt.Sprintf("%s[%d]", path, i), depth+1)
+		}
+		if c.v != nil {
+			walkVal(c.v, path, depth)
+		}
+	}
+	walkCell(p.c, "m", 0)
+	in.track = t
 }
